@@ -70,7 +70,7 @@ var unmodelled = map[string]map[string]bool{
 	"sync/atomic": {"AddInt32": true, "AddInt64": true, "AddUint32": true, "AddUint64": true, "LoadInt32": true, "LoadInt64": true, "LoadUint32": true, "LoadUint64": true, "StoreInt32": true, "StoreInt64": true, "StoreUint32": true, "StoreUint64": true, "CompareAndSwapInt32": true, "CompareAndSwapInt64": true, "Value": true, "Pointer": true},
 }
 
-var simosSel = map[string]bool{}
+var simosSel = map[string]bool{"File": true, "Create": true, "Open": true, "OpenFile": true, "CreateTemp": true, "MkdirTemp": true, "ReadFile": true, "WriteFile": true}
 
 func main() {
 	repo := flag.String("repo", "/repo", "repository root")
@@ -139,7 +139,8 @@ func main() {
 			if isRoot && len(cfg.MainFiles) > 0 && !matchAny(cfg.MainFiles, filepath.Base(path)) {
 				continue
 			}
-			rw := &rewriter{pkg: p, file: f, fset: p.Fset, rep: rep, path: path, rel: strings.TrimPrefix(path, *repo+"/"),
+			relDir := strings.TrimPrefix(strings.TrimPrefix(filepath.Dir(path), filepath.Clean(*repo)), "/")
+			rw := &rewriter{pkg: p, file: f, fset: p.Fset, rep: rep, path: path, rel: strings.TrimPrefix(path, *repo+"/"), simos: simos[relDir] || simos["*"],
 				stmtYield: stmtYield[path], knobs: append(append([]KnobSpec(nil), knobsByFile[path]...), knobsByDir[filepath.Dir(path)]...), overrides: cfg.Overrides}
 			changed := rw.run()
 			if !changed {
@@ -215,6 +216,7 @@ type rewriter struct {
 	stmtYield bool
 	knobs     []KnobSpec
 	overrides map[string]string
+	simos     bool
 	need      map[string]bool // sim packages to import
 	changed   bool
 	skip      map[ast.Node]bool
@@ -300,6 +302,7 @@ func (r *rewriter) run() bool {
 
 	// pass 1: selectors
 	usedPkgs := map[*types.PkgName]int{}
+	osRewritten := false
 	astutil.Apply(r.file, func(c *astutil.Cursor) bool {
 		se, ok := c.Node().(*ast.SelectorExpr)
 		if !ok {
@@ -314,6 +317,12 @@ func (r *rewriter) run() bool {
 			return true
 		}
 		ipath := pn.Imported().Path()
+		if ipath == "os" && r.simos && simosSel[se.Sel.Name] {
+			se.X = ast.NewIdent(r.use("simos"))
+			r.count("sel:os." + se.Sel.Name)
+			osRewritten = true
+			return true
+		}
 		if m, ok := selMap[ipath]; ok {
 			if simpkg, ok := m[se.Sel.Name]; ok {
 				se.X = ast.NewIdent(r.use(simpkg))
@@ -355,7 +364,7 @@ func (r *rewriter) run() bool {
 			continue
 		}
 		ipath, _ := strconv.Unquote(imp.Path.Value)
-		if _, tracked := selMap[ipath]; tracked && usedPkgs[pn] == 0 {
+		if _, tracked := selMap[ipath]; (tracked || (ipath == "os" && osRewritten)) && usedPkgs[pn] == 0 {
 			// keep it alive without an unused-import error
 			imp.Name = ast.NewIdent("_")
 		}
@@ -695,6 +704,22 @@ func (r *rewriter) yieldBlock(b *ast.BlockStmt) {
 	b.List = out
 }
 
+// convTo wraps e in a conversion to the (basic, typed) type the original expression had.
+func (r *rewriter) convTo(orig ast.Expr, e ast.Expr) ast.Expr {
+	tv, ok := r.pkg.TypesInfo.Types[orig]
+	if !ok {
+		return e
+	}
+	b, ok := tv.Type.(*types.Basic)
+	if !ok || b.Info()&types.IsUntyped != 0 || b.Kind() == types.Int {
+		return e
+	}
+	if b.Info()&types.IsInteger == 0 {
+		return e
+	}
+	return &ast.CallExpr{Fun: ast.NewIdent(b.Name()), Args: []ast.Expr{e}}
+}
+
 func (r *rewriter) applyKnobs() {
 	for _, k := range r.knobs {
 		hit := false
@@ -714,7 +739,7 @@ func (r *rewriter) applyKnobs() {
 				if _, isSel := c.Parent().(*ast.SelectorExpr); isSel {
 					return true
 				}
-				c.Replace(r.call("Knob", &ast.BasicLit{Kind: token.STRING, Value: strconv.Quote(k.Knob)}, ast.NewIdent(k.Name)))
+				c.Replace(r.convTo(id, r.call("Knob", &ast.BasicLit{Kind: token.STRING, Value: strconv.Quote(k.Knob)}, ast.NewIdent(k.Name))))
 				hit = true
 				return true
 			})
@@ -738,7 +763,7 @@ func (r *rewriter) applyKnobs() {
 						}
 					}
 					if nth == k.Nth {
-						c.Replace(r.call("Knob", &ast.BasicLit{Kind: token.STRING, Value: strconv.Quote(k.Knob)}, bl))
+						c.Replace(r.convTo(bl, r.call("Knob", &ast.BasicLit{Kind: token.STRING, Value: strconv.Quote(k.Knob)}, bl)))
 						hit = true
 					}
 					nth++
